@@ -119,6 +119,34 @@ pub fn job_c10(out_dir: &str, tier: &str, seed: u64) {
             }
         }
     }
+    // bookkeeping that the limiter does not see: live heap of the process (counting allocator) right after the rewriter
+    // was built versus after the last write, in runs that record nothing; the streams are long, nothing stays open or
+    // buffered, so whatever grows with the length of the stream is unaccounted state
+    let nel = if quick { 40_000 } else { 400_000 };
+    let mut streams: Vec<(&str, Vec<u8>)> = Vec::new();
+    streams.push(("distinct-unhashable-names", { let mut v = Vec::new(); for i in 0..nel { v.extend_from_slice(format!("<item-a{i}></item-a{i}>").as_bytes()); } v }));
+    streams.push(("distinct-long-names", { let mut v = Vec::new(); for i in 0..nel { v.extend_from_slice(format!("<verylongelementname{i}>t</verylongelementname{i}>").as_bytes()); } v }));
+    streams.push(("distinct-hashable-names", { let mut v = Vec::new(); for i in 0..nel { let n: String = format!("{:x}", i).chars().map(|c| if c.is_ascii_digit() { (b'g' + (c as u8 - b'0')) as char } else { c }).collect(); v.extend_from_slice(format!("<{n}></{n}>").as_bytes()); } v }));
+    streams.push(("same-name-siblings", b"<li>x</li>".repeat(nel)));
+    streams.push(("nest-and-unwind", { let mut v = Vec::new(); for _ in 0..(nel / 40) { v.extend(b"<div>".repeat(20)); v.extend(b"</div>".repeat(20)); } v }));
+    streams.push(("distinct-attribute-names", { let mut v = Vec::new(); for i in 0..nel { v.extend_from_slice(format!("<a data-k{i}=v{i}></a>").as_bytes()); } v }));
+    streams.push(("stray-end-tags", { let mut v = Vec::new(); for i in 0..nel { v.extend_from_slice(format!("</x{i}>").as_bytes()); } v }));
+    streams.push(("comments-and-text", { let mut v = Vec::new(); for i in 0..nel { v.extend_from_slice(format!("t{i}<!--c{i}-->").as_bytes()); } v }));
+    for (name, input) in &streams {
+        for (ci, hs) in [json!({"elem":[{"sel":"*","element":[]}]}), json!({"elem":[{"sel":"nomatch > x:nth-of-type(2)","element":[]}]}),
+                         json!({"elem":[{"sel":"div li, a[data-k1]","element":[],"text":[],"comments":[]}]}), json!({})].iter().enumerate() {
+            let max = 16384usize;
+            let cfg = crate::gen::merge(hs, &json!({"strict": false, "mem": {"max": max, "prealloc": 1024, "graceful": false}}));
+            let cuts: Vec<usize> = (1..).map(|i| i * 4096).take_while(|&c| c < input.len()).collect();
+            let (res, growth) = driver::run_bare_heap(&cfg, input, &cuts);
+            n += 1;
+            let distinct = if name.starts_with("distinct-") && !name.contains("attribute") { nel } else { 1 };
+            let rec = json!({"id": format!("c10-{n}"), "heap": {"max": max, "growth": growth.max(0), "res": res, "len": input.len(),
+                "names": distinct, "nthoftype": cfg.to_string().contains("nth-of-type")}});
+            sh.push(&rec, &json!({"id": rec["id"], "case": name, "cfg_index": ci, "cfg": cfg, "len": input.len()}), None, true);
+            eprintln!("heap {name} cfg{ci} res={res} growth={growth}");
+        }
+    }
     sh.finish(json!({"rule": "16 input families built to grow each buffer (unterminated comment / attribute value / tag name under capturing and non-capturing handlers, deep nesting with matching and non-matching selectors, nesting + unterminated token, many small tokens, RCDATA + partial end tag) x preallocation {0, 16, 1024} x chunk sizes {1, 7, 10, 64, whole}; each is a sweep over every limit in [need-8, need+8] plus a geometric ladder from the preallocation up and an even ladder of 48 limits from the need to twice the need, some limits twice. evaluations = runs; a record is one sweep.",
         "runs": runs_total, "stack_item_size": itemsize}));
 }
